@@ -179,6 +179,23 @@ let () =
          Buffer.add_string buf ("\tL:" ^ String.concat "," (List.map (fun ((c, n), e) ->
              Printf.sprintf "%d/%d/%s" (zi c) (zi n) (if zi e = 0 then "-" else ename e)) log));
          if zi code <> 0 then Buffer.add_string buf (Printf.sprintf " CODE%d" (zi code))
+       | "chk" ->
+         (* the formal statements of Props.v evaluated on a tree dump; param = hex of the input the dump came from *)
+         (try
+            let (roots, _) = parse_roots (tokenize f0) [] in
+            let input = unhex param in
+            let v = validUtf8 input in
+            let all f = List.for_all f roots in
+            Buffer.add_string buf (Printf.sprintf "C01=%d C02=%d C03=%d C05=%d C13=%d"
+              (b2i (chk_C01 input roots)) (b2i (all (chk_C02_root v))) (b2i (all chk_C03_root)) (b2i (all chk_C05_root)) (b2i (all chk_C13_root)))
+          with Bad m -> Buffer.add_string buf ("BADDUMP " ^ m))
+       | "chkmodel" ->
+         let input = unhex f0 in
+         let (roots, _) = parseFull input in
+         let v = validUtf8 input in
+         let all f = List.for_all f roots in
+         Buffer.add_string buf (Printf.sprintf "C01=%d C02=%d C03=%d C05=%d C13=%d"
+           (b2i (chk_C01 input roots)) (b2i (all (chk_C02_root v))) (b2i (all chk_C03_root)) (b2i (all chk_C05_root)) (b2i (all chk_C13_root)))
        | "leafok" ->
          (* C07: the leaf hypothesis of C07_render_safeW, evaluated on the implementation's tree *)
          (try
